@@ -59,7 +59,9 @@ def ConfigurationFileToJson(filename):
 
     # VV: the file is a plain listing, not a template: a "%" in a value (e.g. the path of a key-output) is just a character
     cfg = configparser.ConfigParser(interpolation=None)
-    cfg.read([filename])
+    # VV: ConfigParser.read() silently skips a file it cannot open, the caller would then publish an empty listing
+    with open(filename, 'r') as f:
+        cfg.read_file(f)
     return ConfigurationToJson(cfg)
 
 
